@@ -1347,6 +1347,9 @@ func c10message(duty *pbv1.Duty, ents []c10pent) (*pbv1.ParSigExMsg, error) {
 }
 
 func c10wire(m *pbv1.ParSigExMsg) (*pbv1.ParSigExMsg, error) {
+	// map iteration pinned: the entries go on the wire, and into the decoded map, in the order they were put into m
+	runtime.VerifSetMapRot(true, 0)
+	defer runtime.VerifSetMapRot(false, 0)
 	b, err := proto.Marshal(m)
 	if err != nil {
 		return nil, err
